@@ -18,12 +18,12 @@ def _gen_bits(rng, tier, variant):
         L = 8 * len(buf)
         if len(buf) <= 2:
             for p in range(0, L + 2):
-                for n in range(0, L - p + 10):
+                for n in range(-9, L - p + 10):
                     yield {'buf': buf.hex(), 'p': p, 'n': n}
         else:
             for _ in range(40):
                 p = rng.randint(0, L + 1)
-                n = rng.choice([0, 1, 7, 8, 9, 16, 64, rng.randint(0, max(0, L - p)), rng.randint(0, L + 8)])
+                n = rng.choice([0, 1, 7, 8, 9, 16, 64, -1, -8, rng.randint(0, max(0, L - p)), rng.randint(-9, L + 8)])
                 yield {'buf': buf.hex(), 'p': p, 'n': n}
 
 
@@ -150,13 +150,16 @@ CONTRACTS = [
         props=['C03', 'C04', 'C07', 'C14', 'C01'],
         params={'self': RPD, 'nbits': 'int'},
         returns='int',
-        requires=['self.pos >= 0', 'nbits >= 0'],
+        requires=['self.pos >= 0'],
         ensures={
             'value': 'implies(old(self.pos) + nbits <= 8 * len(self), result == bits(self, old(self.pos), nbits))',
             'cursor': 'self.pos == old(self.pos) + nbits',
             'range': '0 <= result and result < pow2(nbits)',
+            # C14: a read that returns normally never moves the cursor backwards
+            'nonneg': ('nbits >= 0', ['C14']),
         },
-        may_raise={'ValueError': 'self.pos + nbits > 8 * len(self)'},
+        may_raise={'ValueError': 'nbits < 0 or self.pos + nbits > 8 * len(self)'},
+        requires_for={'C03': ['nbits >= 0'], 'C04': ['nbits >= 0'], 'C07': ['nbits >= 0']},
         modifies=['self.pos'],
         native={'gen': _gen_bits, 'build': _build_read},
     ),
@@ -166,13 +169,15 @@ CONTRACTS = [
         props=['C03', 'C04', 'C07', 'C14', 'C01'],
         params={'self': RPD, 'nbits': 'int'},
         returns='bytes',
-        requires=['self.pos >= 0', 'nbits >= 0'],
+        requires=['self.pos >= 0'],
         ensures={
             'value': 'be(result) == bits(self, old(self.pos), nbits)',
             'length': 'len(result) == ceil8(nbits)',
             'cursor': 'self.pos == old(self.pos) + nbits',
+            'nonneg': ('nbits >= 0', ['C14']),
         },
-        raises={'ValueError': 'self.pos + nbits > 8 * len(self)'},
+        raises={'ValueError': ('nbits < 0 or self.pos + nbits > 8 * len(self)')},
+        requires_for={'C03': ['nbits >= 0'], 'C04': ['nbits >= 0'], 'C07': ['nbits >= 0']},
         modifies=['self.pos'],
         native={'gen': _gen_bits, 'build': _build_read},
     ),
